@@ -9,6 +9,8 @@ import PkVerif.Gen.C15
     seekread <off> <n>                       Seek + one Read                    -> <hex> <err>
     foreach                                  ForeachChunk                       -> <leaf,leaf,…|-> <err>
     chunks <data> <reader> <len> <eofFrom|-> <pos:bits,…|->   WriteFileFromReader -> ok <n> <tree of sizes>
+    chunksf <data> <reader> <len> <eofFrom|-> <splits|-> <c<k>[d],y<j>[d],f[d]|->   the same over a blob
+                                             server that refuses the selected uploads    -> err | ok …
     sset <M> <L>                             SetStaticSetMembers + StaticSet    -> ok <shape> all=<k> flat=<b>
 
 `<enc>` = parts separated by `,`:  `h<size>` | `x<size>` | `b<hex|->:<off>:<size>` | `n<off>:<size>[<enc>]`.
@@ -163,7 +165,48 @@ def doChunks (len : Nat) (eofFrom : Option Nat) (splits : List (Nat × Nat)) : S
   match writeFile cfg input with
   | .error .weirdSpan => "panic"
   | .error .sizeMismatch => "err"
+  | .error .upload => "err"
   | .ok (parts, _) => s!"ok {sumPartsSize parts} {if parts.isEmpty then "-" else showSizesL parts}"
+
+/-- which uploads the blob server refuses: chunk `k`, bytes schema blob `j` (both in start order), the file blob -/
+inductive FailSel where
+  | chunk (k : Nat) | bytes (j : Nat) | file
+
+/-- `c<k>`, `y<j>`, `f`, each optionally followed by `d` (= fail after a delay: timing is not modelled) -/
+def parseFailItem (w : String) : Option FailSel :=
+  let cs := w.toList
+  let cs := if cs.getLast? = some 'd' then cs.dropLast else cs
+  match cs with
+  | ['f'] => some .file
+  | 'c' :: ds => (num? (String.ofList ds)).map .chunk
+  | 'y' :: ds => (num? (String.ofList ds)).map .bytes
+  | _ => none
+
+def parseFails (w : String) : Option (List FailSel) :=
+  if w = "-" then some [] else
+  let items := w.splitOn ","
+  if items.length > 8 then none else items.mapM parseFailItem
+
+def isChunk : Obj → Bool
+  | .chunk _ => true
+  | _ => false
+
+def doChunksF (len : Nat) (eofFrom : Option Nat) (splits : List (Nat × Nat)) (sel : List FailSel) : String :=
+  let input := buildInput eofFrom len splits.reverse []
+  match writeFile cfg input with
+  | .error _ => "err"
+  | .ok (_, objs) =>
+    let nChunks := (objs.filter isChunk).length
+    let nBytes := objs.length - nChunks - 1
+    let fails : Nat → Bool := fun i => sel.any (fun s =>
+      match s with
+      | .chunk k => decide (k < nChunks) && i == k
+      | .bytes j => decide (j < nBytes) && i == nChunks + j
+      | .file => i == nChunks + nBytes)
+    match writeFileF fails cfg input with
+    | .error .weirdSpan => "panic"
+    | .error _ => "err"
+    | .ok (parts, _) => s!"ok {sumPartsSize parts} {if parts.isEmpty then "-" else showSizesL parts}"
 
 def doSSet (m l : Nat) : String :=
   let ms := List.range l
@@ -194,6 +237,11 @@ def step (st : List Part) (ws : List String) : List Part × String :=
      | some len, some eofFrom, some splits =>
        if len ≤ 67108864 ∧ splitsOk len splits 0 then (st, doChunks len eofFrom splits) else (st, "bad-op")
      | _, _, _ => (st, "bad-op"))
+  | ["chunksf", _, _, l, e, sp, fl] =>
+    (match num? l, (if e = "-" then some none else (num? e).map some), parseSplits sp, parseFails fl with
+     | some len, some eofFrom, some splits, some sel =>
+       if len ≤ 67108864 ∧ splitsOk len splits 0 then (st, doChunksF len eofFrom splits sel) else (st, "bad-op")
+     | _, _, _, _ => (st, "bad-op"))
   | ["sset", a, b] =>
     (match num? a, num? b with
      | some m, some l => if m > 262144 ∨ l > 262144 then (st, "bad-op") else (st, doSSet m l)
